@@ -24,7 +24,9 @@ REQUIRED_THEOREMS = ['Properties.C20.' + n for n in (
     'searchsorted_spec', 'searchsorted_spec_real', 'searchsorted_result_eq', 'searchsorted_pure', 'searchsorted_noclone_mutates_counterexample',
     'cbrt_cube', 'cbrt_neg', 'cbrt_executed_eq', 'logabsdet_spec', 'detL_small',
     'alternating_mask_spec', 'alternating_mask_count', 'mid_split_spec', 'mid_split_count', 'random_mask_count',
-    'temperature_spec', 'is_power_of_two_iff', 'predicates_table')]
+    'temperature_spec', 'is_power_of_two_iff', 'predicates_table',
+    'detL_is_det', 'detL_is_det_of_rows', 'detL_of_request', 'logabsdet_executed', 'detL_algebra', 'split_returns_iff', 'split_merge_id_infer',
+    'split_empty_witness')]
 RULE = ("structural helpers (tile, repeat_rows, merge_leading_dims, split_leading_dim, sum_except_batch): EXHAUSTIVE over all shapes "
         "with <= 3 dims and sizes 0..4 (156 shapes) x {contiguous, permuted view} x every count argument 1..5 and the malformed ones "
         "(0, -1, True, False, 2.0, None, '2', numpy int) / every candidate split shape over {-1,0..4}; data = arange tags (int64), compared "
